@@ -81,6 +81,11 @@ class _AliasTracker:
         if not refs:
             return True  # nothing registered → writable
 
+        # All empty vectors share CPython's interned empty tuple; there is no element
+        # another vector could observe, so an empty vector is always writable
+        if len(getattr(vec, "_underlying", None) or ()) == 0:
+            return True
+
         # drop dead weakrefs, and entries of vectors that no longer use this storage:
         # a vector whose tuple was swapped without unregistering (a Table initialised
         # twice via Vector([...]) / >>, or after column replacement) would otherwise stay
